@@ -366,6 +366,14 @@ func judge(c runCase) (verdict, error) {
 		if _, err := os.Stat(out); err == nil {
 			if i%2 == 1 {
 				dirty = true
+				// "regardless of previous runs": the earlier output is also made longer,
+				// as it would be after a definition was removed from the IDL
+				for _, rel := range tg.ListFiles(out) {
+					if f, err := os.OpenFile(filepath.Join(out, rel), os.O_APPEND|os.O_WRONLY, 0o644); err == nil {
+						f.WriteString("\n// stale tail of a previous, longer output\nvar _ = 0\n")
+						f.Close()
+					}
+				}
 			} else if err := os.RemoveAll(out); err != nil {
 				return harness(err)
 			}
